@@ -24,7 +24,7 @@ EXTENDS Integers, Sequences, FiniteSets, TLC, Json, IOUtils
 Trace == ndJsonDeserialize(IOEnv.VERIF_TRACE)
 VL == INSTANCE VerdictLib
 S == INSTANCE Session WITH MaxSteps <- 0, MaxSend <- 0, MaxH <- 0, SrvKinds <- {}, SendKinds <- {}, SM <- FALSE,
-        Renumber <- FALSE, LockStep <- FALSE, AllowCut <- FALSE, Emit <- FALSE,
+        Renumber <- FALSE, LockStep <- FALSE, AllowCut <- FALSE, MaxResume <- 0, Emit <- FALSE,
         st <- 0, srvOut <- <<>>, rpos <- 0, tasks <- {}, cut <- FALSE, recvAlive <- FALSE, errCb <- 0, discEv <- 0, nsend <- 0, hist <- <<>>
 
 VARIABLES l, tid, sm, mode,
@@ -131,6 +131,7 @@ JudgeBarrier(e) ==
         obsN   == Norm(NonAnswers(oCli))
         hasQ   == ~e.final
         qtags  == IF hasQ THEN e.qtags ELSE <<>>
+        qtagsF == e.qtags
         okc(c) == /\ Norm(NonAnswers(c.st.cliOut)) = obsN
                   /\ (hasQ /\ sm) => Tags(c.st.held) = qtags
         good   == SelectSeq(new, okc)
@@ -165,9 +166,18 @@ JudgeBarrier(e) ==
         next   == IF wrong10 \/ v09b # <<>>
                   THEN [i \in 1..Len(new) |-> Resync(new[i], qtags, IF hasQ THEN e.inb ELSE -1)]
                   ELSE [i \in 1..Len(good) |-> [good[i] EXCEPT !.st.cliOut = <<>>, !.st.handled = <<>>]]
+        \* when the connection is lost everything accepted and not acknowledged is still held (a send that failed may be too)
+        nfailed == Cardinality({i \in 1..Len(pend) : pend[i].op = "send" /\ ~pend[i].ok})
+        okf(c)  == /\ Len(Tags(c.st.held)) <= Len(qtagsF) /\ SubSeq(qtagsF, 1, Len(c.st.held)) = Tags(c.st.held)
+                   /\ Len(qtagsF) <= Len(c.st.held) + nfailed
+        v10f   == IF ~sm \/ ~e.hasq \/ \E i \in 1..Len(new) : okf(new[i]) THEN <<>>
+                  ELSE <<V("C10", "accepted-stanzas-stay-held-when-the-connection-is-lost", PendSig, [d EXCEPT !.qtags = qtagsF])>>
         c10    == IF taint10 THEN <<>> ELSE v10 \o v10i
         \* once the connection is lost, what the client still tried to write may be gone: only routing is judged
-        vs     == IF cutSeen THEN v05a ELSE v05a \o v05b \o v09a \o v09b \o c10
+        \* C12 states the same for the stanzas completely received before a cut
+        v12a   == IF v05a = <<>> \/ ~(\E t \in SeqToSet(expH) : t \notin SeqToSet(oHdl)) THEN <<>>
+                  ELSE <<V("C12", "stanzas-completely-received-before-the-cut-are-still-routed", PendSig, d)>>
+        vs     == IF cutSeen THEN v05a \o v12a \o (IF taint10 THEN <<>> ELSE v10f) ELSE v05a \o v05b \o v09a \o v09b \o c10
     IN [vs |-> IF dead THEN <<>> ELSE vs, cands |-> next, ref |-> ref, c10 |-> (~cutSeen /\ c10 # <<>>)]
 
 JudgeCut(e, ref) ==
@@ -188,6 +198,19 @@ T_Quiet == /\ Ev("quiet")
            /\ pend' = <<>> /\ oCli' = <<>> /\ oHdl' = <<>> /\ oCalls' = <<>>
            /\ stats' = [stats EXCEPT !.barriers = @ + 1]
            /\ l' = l + 1 /\ UNCHANGED <<tid, sm, mode, allHdl, nErr, evs, cutSeen, dead>>
+
+\* the connection is lost in the middle of a history and the application resumes the session
+T_LostEv == /\ Ev("lostev")
+            /\ cutSeen' = TRUE /\ nErr' = 0
+            /\ l' = l + 1 /\ UNCHANGED <<tid, sm, mode, cands, pend, oCli, oHdl, oCalls, allHdl, evs, dead, taint10, verdicts, stats>>
+T_Resumed == /\ Ev("resumed")
+             /\ verdicts' = IF dead THEN verdicts ELSE AddV(JudgeCut(E, cands[1].st))
+             \* the h of <resumed/> may be ignored or treated as an acknowledgement (retransmission then follows on the new connection)
+             /\ cands' = [i \in 1..Len(cands) |-> [cands[i] EXCEPT !.st.cliOut = <<>>, !.st.handled = <<>>]] \o
+                          [i \in 1..Len(cands) |-> [st |-> S!AckEffect([cands[i].st EXCEPT !.cliOut = <<>>, !.handled = <<>>], E.h, cands[i].renum),
+                                                     renum |-> cands[i].renum]]
+             /\ cutSeen' = FALSE /\ nErr' = 0 /\ evs' = <<>> /\ pend' = <<>> /\ oCli' = <<>> /\ oHdl' = <<>> /\ oCalls' = <<>>
+             /\ l' = l + 1 /\ UNCHANGED <<tid, sm, mode, allHdl, dead, taint10, stats>>
 
 T_Loops == /\ Ev("loops")
            /\ verdicts' = IF dead THEN verdicts ELSE AddV(
@@ -221,7 +244,7 @@ T_End == /\ Ev("end")
 TraceInit == /\ l = 1 /\ tid = 0 /\ sm = FALSE /\ mode = "lock" /\ cands = Cands0(FALSE) /\ pend = <<>> /\ oCli = <<>> /\ oHdl = <<>>
              /\ oCalls = <<>> /\ allHdl = <<>> /\ nErr = 0 /\ evs = <<>> /\ cutSeen = FALSE /\ dead = FALSE /\ taint10 = FALSE /\ verdicts = 0 /\ VL!InitV
              /\ stats = [scen |-> 0, barriers |-> 0]
-TraceNext == T_Reset \/ T_Pre \/ T_Srv \/ T_Send \/ T_Call \/ T_Hdl \/ T_Cli \/ T_ErrCb \/ T_Event \/ T_Cut \/ T_Quiet \/ T_Loops
+TraceNext == T_Reset \/ T_Pre \/ T_LostEv \/ T_Resumed \/ T_Srv \/ T_Send \/ T_Call \/ T_Hdl \/ T_Cli \/ T_ErrCb \/ T_Event \/ T_Cut \/ T_Quiet \/ T_Loops
              \/ T_Leak \/ T_Crash \/ T_Skip \/ T_End
 TraceSpec == TraceInit /\ [][TraceNext]_tvars
 =============================================================================
